@@ -459,6 +459,8 @@ func C17(c *Ctx) {
 		r.Check("C17-5", FnKey(fn)+":not-the-package-doc", c.Pos(fn.Pos()), !sawFileDoc, "the doc lookup can end at File.Doc: the package documentation is then taken for the doc comment of an undocumented interface or method (copied above generated functions, deleted from the output, its notation-like lines applied to whichever declaration comes first)")
 	}
 
+	c.docStopsAtFieldRule("C17-10")
+
 	r.Rule("C17-4", "marker identity: both InsertComment calls of an entry plant that entry's marker at positions taken from the interface's own declaration (ToAstNode(file, entry.intf)); the cut regexp and the replacement use the same entry's marker")
 	if fn := c.MustMethod("C17-4", "/pkg/parser", "Parser", "GenerateBaseCode"); fn != nil {
 		ins := c.CallsIn(fn, pUtil+"InsertComment", false)
